@@ -1,8 +1,8 @@
 """C02 — 3-map structural integrity, mirrored 3-sewn faces, refusal of non-mirrorable 3-links.
 
-Tie + oracle part only (model `Honeycomb/Model/Ops3.lean`, harness `hcimpl/src/s3.rs`).  The Lean
-property module `Honeycomb.Props.C02` does not exist yet: add it to SPEC["lean_modules"] /
-SPEC["required_theorems"] when it does.
+Proofs: `Honeycomb.Props.C02` (WF 4 and Mirror preserved by every call and every history; refusal of
+faces of different shapes), on the lemmas `Honeycomb/Lemmas/{Link3,Sew3}.lean`.  Tie + oracle: model
+`Honeycomb/Model/Ops3.lean`, harness `hcimpl/src/s3.rs`.
 
 Oracles (evaluated on the implementation's output):
   * wf        — after every editing call made with non-null, in-use darts (distinct for 2-/3-links) the
@@ -25,9 +25,13 @@ import hv
 from hv import Case
 
 SPEC = {
-    "lean_modules": [],
-    "required_theorems": [],
+    "lean_modules": ["Honeycomb.Props.C02"],
+    "required_theorems": ["C02_step_preserves_WF", "C02_history_preserves_WF", "C02_step_preserves_Mirror",
+                          "C02_history_preserves_WF_and_Mirror", "C02_refusal", "C02_refusal_sew",
+                          "C02_three_link_checks_shape", "C02_refused_call_changes_nothing",
+                          "C02_unused_is_nobodys_image", "C02_failed_call_changes_nothing"],
     "trusted_base": [
+        "Lean 4.33 kernel; axioms propext, Classical.choice, Quot.sound only",
         "hand-written model Honeycomb/Model/{Stm,Map,Ops,Ops2,Ops3}.lean tied to /repo by the hcmodel/hcimpl correspondence run",
         "Rust harness /verif/harness/hcimpl (protocol interpreter s3.rs, WF/mirror oracle) and tools/*.py",
         "fast-stm is represented by the sequential semantics `atomically` (single thread; C07 covers concurrency)",
@@ -43,7 +47,15 @@ SPEC = {
             "(all ways to build <=2 (quick) / <=3 (thorough, sampled) faces of <=4 sides, closed and open) x every call, fresh and "
             "after random pre-operations; random valid-argument histories on face families and on pairs of polyhedra "
             "(cube, tetrahedron, prism, pyramid) glued by a 3-sew; malformed arguments (correspondence only).",
-    "not_proved": ["no Lean theorem yet: C02 is supported by correspondence + oracle only"],
+    "not_proved": [
+        "no clause of the statement is left `_partial`: WF 4 (C02_step/history_preserves_WF), Mirror (open and closed faces, every "
+        "op) and the refusal (closed/closed of different lengths, closed/open, open/open with different numbers of darts ahead or "
+        "behind) are proved on the model of the code AFTER the D1/D1b fix: commits; before them Mirror and the refusal were false "
+        "(known finding D1, kept for the record)",
+        "the theorems are about the sequential semantics of single calls and histories; concurrency is C07, composed transactions "
+        "C08 (three_sew/three_unsew use the non-transactional orbit(), D4: irrelevant for the beta part proved here)",
+        "model/implementation agreement is established by the differential run of this check, not by proof",
+    ],
 }
 
 OP_RE = re.compile(r"^f?(link|unlink|sew|unsew) ([0-9]+) ([0-9]+)(?: ([0-9]+))?$")
